@@ -32,6 +32,8 @@ VERIF = os.path.dirname(os.path.dirname(os.path.abspath(__file__)))
 REPO = os.environ.get("VERIF_REPO", "/repo")
 WORK = os.environ.get("VERIF_WORK", os.path.join(VERIF, ".work"))
 HARNESS_DIR = os.path.join(VERIF, "harness")
+EVIDENCE_DIR = os.environ.get("VERIF_EVIDENCE", os.path.join(VERIF, "evidence"))
+REPLAY_DIR = os.environ.get("VERIF_REPLAYS", os.path.join(VERIF, "replays"))
 KANI_LIB_C = os.path.expanduser("~/.kani/kani-0.68.0/library/kani/kani_lib.c")
 CBMC_FLAGS = [
     "--no-malloc-may-fail", "--no-undefined-shift-check", "--no-signed-overflow-check",
@@ -506,7 +508,7 @@ def match_known(known, prop, fn, chk):
 def replay(prop, r, keep=False):
     """returns (verdict, path, detail); verdict in reproduced/not-reproduced/error"""
     fn, pretty, spec = r["harness"], r["pretty"], r["spec"]
-    rdir = os.path.join(VERIF, "replays", prop)
+    rdir = os.path.join(REPLAY_DIR, prop)
     os.makedirs(rdir, exist_ok=True)
     rpath = os.path.join(rdir, fn + ".rs")
     if spec.replay == "none":
@@ -544,6 +546,9 @@ def replay(prop, r, keep=False):
     body = ""
     names = []
     for i, t in enumerate(uniq):
+        # drop the generated doc comment (a multi-line assertion text breaks it) - keep from #[test] on
+        if "#[test]" in t:
+            t = t[t.index("#[test]"):]
         t = t.replace("#[test]", "#[test]\n")
         m = re.search(r"fn (kani_concrete_playback_[A-Za-z0-9_]+)", t)
         if m:
@@ -634,7 +639,7 @@ def run_replay_file(rpath, harness_snapshot=None):
 # evidence
 # --------------------------------------------------------------------------
 def write_evidence(prop, tier, seed, results, wall, codegen_s, nviol, known_lines, replays, extra_incon=None):
-    os.makedirs(os.path.join(VERIF, "evidence"), exist_ok=True)
+    os.makedirs(EVIDENCE_DIR, exist_ok=True)
     steps = sum(r["stats"].get("steps", 0) for r in results)
     vccs = sum(r["stats"].get("vccs", 0) for r in results)
     funcs = set()
@@ -710,7 +715,7 @@ def write_evidence(prop, tier, seed, results, wall, codegen_s, nviol, known_line
         "wall_s": round(wall, 1),
         "violations": nviol,
     }
-    path = os.path.join(VERIF, "evidence", prop + ".json")
+    path = os.path.join(EVIDENCE_DIR, prop + ".json")
     tmp = path + ".tmp"
     json.dump(ev, open(tmp, "w"), indent=1)
     os.replace(tmp, path)
